@@ -80,6 +80,19 @@ func genC08(t *rapid.T) C08Case {
 			maxOff[id] = 0
 		}
 	}
+	// two files whose entries are the same words in another order: the optimiser's output depends on the
+	// order, so a result remembered from one file must not be handed to the other
+	if n >= 2 && rapid.IntRange(0, 4).Draw(t, "permuted") == 0 {
+		words := []string{"union", "insert", "select", "inject", "unite"}
+		for _, i := range []int{0, 1} {
+			var m []ragen.Line
+			for _, w := range rapid.Permutation(words).Draw(t, "perm") {
+				m = append(m, ragen.Line{K: ragen.KEntry, T: w})
+			}
+			c.Asms[i].Main = m
+		}
+		lab["files-with-permuted-entries"] = true
+	}
 	// a file that only works if state leaks from another file: loads a name it never stores
 	if n >= 2 && rapid.IntRange(0, 4).Draw(t, "leak") == 0 {
 		i := rapid.IntRange(1, n-1).Draw(t, "leakfile")
@@ -365,6 +378,21 @@ func checkC08(c C08Case) Outcome {
 		out.Key = fmt.Sprint(c.tree(), c.Perm, c.Mode)
 		out.Sample = map[string]any{"mode": c.Mode, "files": len(c.Asms), "dependent_file": true, "all_exit": allRes.Exit}
 		return out
+	}
+	if c.Mode == "compare" && !anyBad {
+		// GitHub mode reports through the exit status (and one summary line): --all fails exactly when some single invocation fails
+		ga := run(sa, ra, "-o", "github", "regex", "compare", "--all")
+		singleFails := false
+		for _, i := range c.Perm {
+			if g := run(sbB, rb, "-o", "github", "regex", "compare", c.Asms[i].arg()); g.Exit != 0 {
+				singleFails = true
+			}
+		}
+		out.Detail["github_all_exit"], out.Detail["github_single_fails"] = ga.Exit, singleFails
+		if (ga.Exit != 0) != singleFails {
+			out.Violation = fmt.Sprintf("compare --all -o github exits %d although %s", ga.Exit, map[bool]string{true: "a single invocation in GitHub mode fails", false: "no single invocation in GitHub mode fails"}[singleFails])
+			return out
+		}
 	}
 	if c.Mode == "compare" {
 		var sv []string
